@@ -121,6 +121,11 @@ inline Py_ALWAYS_INLINE T ListGetItemAs(const py::handle& list, const py::ssize_
     }
     return py::reinterpret_steal<T>(item);
 #else
+    // NOTE: the list may have been shrunk by a re-entrant callback since its size was taken.
+    if (index < 0 || index >= PyList_GET_SIZE(list.ptr())) [[unlikely]] {
+        py::set_error(PyExc_IndexError, "list index out of range");
+        throw py::error_already_set();
+    }
     return py::reinterpret_borrow<T>(PyList_GET_ITEM(list.ptr(), index));
 #endif
 }
